@@ -1406,7 +1406,9 @@ DECODE_MORE:
     }
     if (sanity-- < 0)
     {
-        return PS_PROTOCOL_FAIL;    /* We've tried to decode too many times */
+        /* We've tried to decode too many times */
+        ssl->flags |= SSL_FLAGS_ERROR;
+        return PS_PROTOCOL_FAIL;
     }
     len = ssl->inlen;
     size = ssl->insize - (buf - ssl->inbuf);
